@@ -86,8 +86,16 @@ def run(argv, cwd, flavour="plain", env=None, timeout=30.0, cpu=20, fsize=1 << 3
 
     t0 = time.time()
     r0 = resource.getrusage(resource.RUSAGE_CHILDREN)
-    p = subprocess.Popen(argv, cwd=cwd, env=e, stdin=subprocess.DEVNULL if stdin is None else subprocess.PIPE,
-                         stdout=subprocess.PIPE, stderr=subprocess.PIPE, preexec_fn=pre)
+    for attempt in range(40):
+        try:
+            p = subprocess.Popen(argv, cwd=cwd, env=e, stdin=subprocess.DEVNULL if stdin is None else subprocess.PIPE,
+                                 stdout=subprocess.PIPE, stderr=subprocess.PIPE, preexec_fn=pre)
+            break
+        except (PermissionError, FileNotFoundError, OSError) as ex:
+            # the executable is being replaced by a concurrent (re)build of the same flavour: wait for the linker
+            if attempt == 39 or getattr(ex, "errno", None) not in (13, 2, 26):
+                raise
+            time.sleep(0.5)
     timed_out = False
     try:
         out, err = p.communicate(input=stdin, timeout=timeout)
